@@ -439,11 +439,16 @@ def check_q(prop, v, tier, d, qs=None, covkey=None):
             stats["exec_errors"] += 1
         if rows:
             stats["nonempty"] += 1
+        if len(rows) > 1200:
+            # TLC judges a result in time quadratic in the number of solutions: results of this size (products of
+            # unrelated clauses over a large content) are left to the smaller cases of the same shape
+            stats["too_large_for_the_model"] = stats.get("too_large_for_the_model", 0) + 1
+            continue
         distinct.add(c["text"])
         events.append({"ev": "Q", "prop": prop, "id": q["id"], "graphs": q["graphs"], "clauses": q["clauses"], "proj": q["proj"],
                        "glo": q["glo"], "ghi": q["ghi"], "err": is_err(r), "rows": rows, "filters": q.get("filters") or []})
         evq.append((q, c, r))
-    rejects, opens, states = validate(events, d, prop)
+    rejects, opens, states = validate(events, d, prop, per_chunk=700)
     elsewhere = 0
     for idx, p, cls in rejects:
         q, c, r = evq[idx]
@@ -465,6 +470,7 @@ def check_q(prop, v, tier, d, qs=None, covkey=None):
                   "distinct_queries": len(distinct), "nonempty_results": stats["nonempty"],
                   "parser_rejected_not_judged": stats["parser_rejected"], "exec_errors": stats["exec_errors"],
                   "parse_dump_mismatch": stats["dump_mismatch"], "rejected_events": len(rejects),
+                  "results_too_large_for_the_model_not_judged": stats.get("too_large_for_the_model", 0),
                   "samples": [{"text": c["text"], "graphs": q["graphs"], "rows": r["rows"][:4]} for q, c, r in evq[:3]]})
     if covkey:
         v.assumptions += ["BQL FILTER: judged per BQLSemantics.FilteredData (per graph lookup: candidates = constants of the clause, window, filter); "
@@ -1180,6 +1186,10 @@ def check(prop):
         check_meta(v, tier, d)
     else:
         raise Infra("property %s not implemented in fam_bql" % prop)
+    if prop in ("C10", "C11", "C12", "C13"):
+        # the table operations these clauses are built from, executed directly on bql/table (spec/TableAlg.tla)
+        import fam_table
+        fam_table.run(v, tier, vlib.scratch("table-"), prop)
     return v.finish()
 
 
